@@ -30,6 +30,7 @@ import (
 	"math/rand/v2"
 	"net/http"
 	"os"
+	"runtime"
 	"slices"
 	"sort"
 	"strconv"
@@ -52,6 +53,7 @@ type c07Case struct {
 	Adv   []string `json:"adv"`
 	Disc  string   `json:"disc"`
 	Prior string   `json:"prior"` // none | stateless | stateful: earlier connection to the same Server
+	Early bool     `json:"early"` // the client's first request arrives while Server.Connect asks the transport for its versions
 }
 
 type c07Real struct {
@@ -153,9 +155,44 @@ func (rt *c07RT) RoundTrip(req *http.Request) (*http.Response, error) {
 type c07PVS struct {
 	mcp.Transport
 	adv []string
+	// early cells: the first question Server.Connect asks starts the client and is answered only once the
+	// client's first request has reached the server's method handlers (or the client has given up)
+	once  sync.Once
+	early func()
 }
 
-func (p *c07PVS) SupportsProtocolVersion(v string) bool { return slices.Contains(p.adv, v) }
+// c07EarlyT reports when the first message written by the client has been consumed by the peer (both the
+// in-memory pipe and io.Pipe hand a message over synchronously).
+type c07EarlyT struct {
+	mcp.Transport
+	wrote func()
+}
+
+type c07EarlyConn struct {
+	mcp.Connection
+	wrote func()
+}
+
+func (t *c07EarlyT) Connect(ctx context.Context) (mcp.Connection, error) {
+	c, err := t.Transport.Connect(ctx)
+	if err != nil {
+		return nil, err
+	}
+	return &c07EarlyConn{Connection: c, wrote: t.wrote}, nil
+}
+
+func (c *c07EarlyConn) Write(ctx context.Context, m jsonrpc.Message) error {
+	err := c.Connection.Write(ctx, m)
+	c.wrote()
+	return err
+}
+
+func (p *c07PVS) SupportsProtocolVersion(v string) bool {
+	if p.early != nil {
+		p.once.Do(p.early)
+	}
+	return slices.Contains(p.adv, v)
+}
 
 // ---------------------------------------------------------------------------
 
@@ -211,6 +248,9 @@ func c07Run(t *testing.T, r *rand.Rand, c c07Case, rep int) c07Line {
 				return &mcp.CallToolResult{Content: []mcp.Content{&mcp.TextContent{Text: name + ":" + a.X}}}, nil, nil
 			})
 	}
+	// early cells: closed once the server's reader has taken the client's first message off the transport
+	arrived := make(chan struct{})
+	var arrivedOnce sync.Once
 	if c.Disc != "native" {
 		server.AddReceivingMiddleware(func(next mcp.MethodHandler) mcp.MethodHandler {
 			return func(ctx context.Context, method string, req mcp.Request) (mcp.Result, error) {
@@ -250,9 +290,38 @@ func c07Run(t *testing.T, r *rand.Rand, c c07Case, rep int) c07Line {
 	defer cancelAll()
 	var ct mcp.Transport
 	var cleanup []func()
+	// early cells: client.Connect runs in its own goroutine, started from inside the wrapper's first answer
+	type connRes struct {
+		cs  *mcp.ClientSession
+		err error
+	}
+	var earlyCT mcp.Transport
+	earlyDone := make(chan connRes, 1)
+	cctx, ccancel := context.WithTimeout(ctx, 30*time.Second)
+	defer ccancel()
 	wrapT := func(st mcp.Transport) mcp.Transport {
 		if c.Wrap {
-			return &c07PVS{Transport: st, adv: c.Adv}
+			w := &c07PVS{Transport: st, adv: c.Adv}
+			if c.Early {
+				w.early = func() {
+					go func() {
+						et := &c07EarlyT{Transport: earlyCT, wrote: func() { arrivedOnce.Do(func() { close(arrived) }) }}
+						cs, err := client.Connect(cctx, et, &mcp.ClientSessionOptions{ProtocolVersion: reqStr})
+						earlyDone <- connRes{cs, err}
+					}()
+					select {
+					case <-arrived:
+						// let the server handle that request as far as it can before the answer is given
+						// (no sleeping here: a handler waiting for a lock held by Server.Connect is not
+						// "durably blocked", so virtual time would never advance)
+						for i := 0; i < 5000; i++ {
+							runtime.Gosched()
+						}
+					case <-cctx.Done():
+					}
+				}
+			}
+			return w
 		}
 		return st
 	}
@@ -260,6 +329,7 @@ func c07Run(t *testing.T, r *rand.Rand, c c07Case, rep int) c07Line {
 	switch c.Tr {
 	case "mem":
 		cti, sti := mcp.NewInMemoryTransports()
+		earlyCT = cti
 		ss, err := server.Connect(ctx, wrapT(sti), nil)
 		if err != nil {
 			t.Fatalf("server.Connect: %v", err)
@@ -269,6 +339,7 @@ func c07Run(t *testing.T, r *rand.Rand, c c07Case, rep int) c07Line {
 	case "io":
 		c2sR, c2sW := io.Pipe()
 		s2cR, s2cW := io.Pipe()
+		earlyCT = &mcp.IOTransport{Reader: s2cR, Writer: c2sW}
 		ss, err := server.Connect(ctx, wrapT(&mcp.IOTransport{Reader: c2sR, Writer: s2cW}), nil)
 		if err != nil {
 			t.Fatalf("server.Connect: %v", err)
@@ -313,9 +384,14 @@ func c07Run(t *testing.T, r *rand.Rand, c c07Case, rep int) c07Line {
 	var errs []string
 	// The connect context stays alive until the scenario ends: SSEClientTransport binds its hanging GET
 	// to it, so cancelling it after Connect would close a healthy session.
-	cctx, ccancel := context.WithTimeout(ctx, 30*time.Second)
-	defer ccancel()
-	cs, err := client.Connect(cctx, ct, &mcp.ClientSessionOptions{ProtocolVersion: reqStr})
+	var cs *mcp.ClientSession
+	var err error
+	if c.Early && c.Wrap {
+		r := <-earlyDone
+		cs, err = r.cs, r.err
+	} else {
+		cs, err = client.Connect(cctx, ct, &mcp.ClientSessionOptions{ProtocolVersion: reqStr})
+	}
 	mu.Lock()
 	connecting = false
 	for _, m := range out.Methods {
